@@ -18,31 +18,52 @@ def sh(cmd, **kw):
 
 
 def main():
+    overlay = '--overlay' in sys.argv
+    jobs = ''
+    for a in sys.argv[1:]:
+        if a.startswith('-j'):
+            jobs = ' -j ' + a[2:].lstrip('=')
+    sys.argv = [a for a in sys.argv if not a.startswith('-')]
     seeds = sys.argv[1:] or sorted(d for d in os.listdir(f'{V}/seeded') if os.path.isdir(f'{V}/seeded/{d}'))
-    if sh('git -C /repo status --porcelain').stdout.strip():
-        sys.exit('/repo has uncommitted changes; refusing')
-    if sh('pgrep -f "vcheck run"').stdout.strip():
-        sys.exit('another vcheck is running; refusing (it would read the seeded tree)')
+    if not overlay:
+        if sh('git -C /repo status --porcelain').stdout.strip():
+            sys.exit('/repo has uncommitted changes; refusing')
+        if sh('pgrep -f "vcheck run"').stdout.strip():
+            sys.exit('another vcheck is running; refusing (it would read the seeded tree)')
     for s in seeds:
         d = f'{V}/seeded/{s}'
         prop = s[:3]
         meta = json.load(open(f'{d}/meta.json')) if os.path.exists(f'{d}/meta.json') else {}
-        r = sh(f'git -C /repo apply {d}/patch.diff')
-        if r.returncode != 0:
-            print(s, 'patch does not apply', r.stderr.strip())
-            continue
+        pre = ''
+        if overlay:
+            r = sh(f'sh {V}/tools/seed_overlay.sh {d}/patch.diff')
+            if r.returncode != 0 or not r.stdout.strip():
+                print(s, 'patch does not apply to a copy', r.stderr.strip())
+                continue
+            pre = 'VERIF_EXTRA_OVERLAY=' + r.stdout.strip() + ' '
+        else:
+            r = sh(f'git -C /repo apply {d}/patch.diff')
+            if r.returncode != 0:
+                print(s, 'patch does not apply', r.stderr.strip())
+                continue
         results = []
         try:
             for p in [prop] + EXTRA.get(s, []):
                 t0 = time.time()
-                r = sh(f'cd {V} && ./bin/vcheck run {p} --tier quick --no-evidence')
+                r = sh(f'cd {V} && {pre}./bin/vcheck run {p} --tier quick --no-evidence{jobs}')
+                if r.returncode == 2 and 'ENGINE-MISMATCH' in r.stdout:
+                    # a native replay that did not reproduce is inconclusive; try once more
+                    r = sh(f'cd {V} && {pre}./bin/vcheck run {p} --tier quick --no-evidence{jobs}')
                 viol = re.findall(r'^VIOLATION property=(\S+) replay=\S+ harness=(\S+) (?:assert|panic)=(.*)$', r.stdout, re.M)
                 inconc = re.findall(r'^INCONCLUSIVE property=\S+ reason=(.*)$', r.stdout, re.M)
                 results.append({'check': f'bin/vcheck run {p} --tier quick', 'exit': r.returncode,
                                 'violations': [{'harness': h, 'id': a.strip()} for _, h, a in viol],
                                 'inconclusive': [x[:160] for x in inconc][:3], 'seconds': round(time.time() - t0)})
         finally:
-            sh('git -C /repo checkout -- .')
+            if not overlay:
+                sh('git -C /repo checkout -- .')
+            else:
+                sh('rm -rf /tmp/seedov.*')
         caught = any(x['exit'] == 1 and x['violations'] for x in results)
         meta['property'] = prop
         rp = f'{d}/README.md'
@@ -54,7 +75,8 @@ def main():
             meta.setdefault('summary', txt.split('\n', 1)[0].lstrip('# ').strip())
         meta['checks'] = results
         meta['caught_by_quick_check'] = caught
-        meta['how_run'] = 'git -C /repo apply patch.diff; bin/vcheck run <property> --tier quick --no-evidence; git -C /repo checkout -- .  (tools/seed_matrix.py)'
+        meta['how_run'] = ('patched copies of the touched files overlaid on /repo (VERIF_EXTRA_OVERLAY, tools/seed_overlay.sh); bin/vcheck run <property> --tier quick  (tools/seed_matrix.py --overlay)'
+                           if overlay else 'git -C /repo apply patch.diff; bin/vcheck run <property> --tier quick --no-evidence; git -C /repo checkout -- .  (tools/seed_matrix.py)')
         json.dump(meta, open(f'{d}/meta.json', 'w'), indent=1)
         print(s, 'CAUGHT' if caught else 'missed', [(x['exit'], [v['harness'] + ':' + v['id'] for v in x['violations']][:2]) for x in results], flush=True)
     # matrix over all seeds
